@@ -516,7 +516,10 @@ class Walker:
             self.gen = saved
             for h in st.handlers:
                 self.gen = saved + (('except', ast.unparse(h.type) if h.type is not None else "*", st.lineno),)
-                self.block(h.body)
+                hb = h.body
+                if hb and isinstance(hb[-1], ast.Continue) and any(fr[0] == 'for' for fr in saved):
+                    hb = hb[:-1]                            # `except E: continue`: this iteration ends here; what follows the try runs otherwise
+                self.block(hb)
             self.gen = saved
             self.block(st.finalbody)
             return
@@ -743,6 +746,27 @@ class Walker:
 
     def assign(self, st):
         if len(st.targets) != 1:
+            # a = b = V: V is evaluated once and bound to every target.  With a plain name among the targets the statement is
+            # `name = V` followed by `<other> = name` (so that `m.submodules.x = x = self._x` registers the submodule and
+            # `self._s = s = Signal()` creates one signal); without one, a value that is only read may be repeated.
+            names = [t for t in st.targets if isinstance(t, ast.Name)]
+            plain = not any(isinstance(n, (ast.Call, ast.Lambda, ast.ListComp, ast.GeneratorExp, ast.DictComp, ast.SetComp, ast.List, ast.Dict, ast.Set))
+                            for n in ast.walk(st.value))
+            if names or plain:
+                seq = []
+                if names:
+                    carrier = names[0]
+                    seq.append(ast.Assign(targets=[carrier], value=st.value))
+                    for t in st.targets:
+                        if t is not carrier:
+                            seq.append(ast.Assign(targets=[t], value=ast.Name(id=carrier.id, ctx=ast.Load())))
+                else:
+                    seq = [ast.Assign(targets=[t], value=st.value) for t in st.targets]
+                for s_ in seq:
+                    ast.copy_location(s_, st)
+                    ast.fix_missing_locations(s_)
+                    self.assign(s_)
+                return
             v = self.ex(st.value)
             for t in st.targets:
                 self.assign_target(t, v, st)
@@ -1601,6 +1625,22 @@ class Walker:
         self.block(st.orelse)
         env_f = self.env
         self.gen = saved_gen
+
+        def terminates(blk):
+            if not blk:
+                return False
+            last = blk[-1]
+            if isinstance(last, (ast.Raise, ast.Return)):
+                return True
+            return isinstance(last, ast.If) and terminates(last.body) and terminates(last.orelse)
+        # an arm that leaves the function (raise / return) contributes no bindings to what follows
+        t_out, f_out = terminates(st.body), terminates(st.orelse)
+        if t_out and not f_out:
+            self.env, self.bind_ctx = env_f, self.bind_ctx
+            return
+        if f_out and not t_out:
+            self.env, self.bind_ctx = env_t, bc_t
+            return
         merged = {}
         params = set(self.fi.params)
         for name in set(env_t) | set(env_f):
